@@ -312,3 +312,158 @@ def c11(run):
                 "every other op family under ASan+UBSan+LSan with red zones around scratch chunks: crash, failed assertion, sanitizer "
                 "report, leak, unbalanced or out-of-order scratch stack are failures. Non-trivial = judged ok; distinct by op line.",
                 assumptions=["memory safety is observed by sanitizers on the explored inputs, not proved; only the allocator discipline is a theorem"])
+
+
+# ------------------------------------------------------------------------------------------------------------------
+# C05 graphic / C06 network / C14 representation matrices
+# ------------------------------------------------------------------------------------------------------------------
+
+def graph_instances(rng, count, maxe, signed):
+    """(m, n, entries) of fundamental-cycle matrices of random multigraphs under random line orders, with zero/unit/duplicate
+    lines arising naturally from loops, bridges-in-cycle-free parts and parallel edges"""
+    out = []
+    for _ in range(count):
+        nn = rng.randint(1, max(2, maxe // 2))
+        ne = rng.randint(0, maxe)
+        edges = rand_multigraph(rng, nn, ne)
+        forest = spanning_forest(rng, nn, edges)
+        coforest = [i for i in range(ne) if i not in set(forest)]
+        rng.shuffle(forest); rng.shuffle(coforest)
+        rev = [rng.random() < 0.5 for _ in range(ne)] if signed else None
+        e = cycle_matrix(nn, edges, forest, coforest, signed, rev)
+        out.append((len(forest), len(coforest), e))
+    return out
+
+
+@check("C05")
+def c05(run):
+    quick = run.tier == "quick"
+    rng = run.rng
+    lines = []
+    sh = shapes(4, 4) if quick else shapes(4, 5) + [(5, n) for n in range(0, 5)]
+    for (m, n) in sh:
+        for e in all_mats(m, n, (0, 1)):
+            mt = mat_tokens(m, n, e)
+            lines.append("graphic 0 1 0 %s" % mt)
+            lines.append("graphic 1 1 0 %s" % mt)
+    run.batch("exhaustive-small", lines, "plain")
+    more = []
+    for _ in range(2000 if quick else 30000):
+        m, n = rng.choice([(5, 5), (5, 4), (4, 5), (5, 6), (5, 3), (3, 5)])
+        e = rand_mat(rng, m, n, (1,), rng.choice((0.3, 0.5, 0.7)))
+        tr = 1 if n <= 5 and (m > 5 or rng.random() < 0.5) else 0
+        if tr == 0 and m > 5:
+            continue
+        more.append("graphic %d %d %d %s" % (tr, rng.randint(0, 1), rng.randint(0, 1), mat_tokens(m, n, e)))
+    for (m, n, e) in graph_instances(rng, 400 if quick else 4000, 14, False):
+        more.append("graphic 0 1 0 %s" % mat_tokens(m, n, e))
+        more.append("graphic 1 1 0 %s" % mat_tokens(n, m, [e[i * n + j] for j in range(n) for i in range(m)]))
+    for (m, n, e) in graph_instances(rng, 60 if quick else 1500, 120 if quick else 400, False):
+        more.append("graphic 0 1 1 %s" % mat_tokens(m, n, e))
+    for _ in range(100 if quick else 1000):
+        m, n = rng.randint(1, 4), rng.randint(1, 4)
+        more.append("graphic %d 1 1 %s" % (rng.randint(0, 1), mat_tokens(m, n, rand_mat(rng, m, n, (-1, 1, 2), 0.6))))
+    run.batch("random+graph-instances", more, "asan")
+    return dict(rule="exhaustive: every 0/1 matrix up to 4x4 (thorough 4x5 and 5x<=4) through CMRgraphicTestMatrix and CMRgraphicTestTranspose with "
+                "the graph requested: every yes is decided by multiplying out the returned graph/forest/coforest (checkGraphCert), every no by "
+                "the brute-force tree search (rows<=5); seeded 5-row matrices; fundamental-cycle matrices of random multigraphs (loops, "
+                "parallel edges, several components, up to 120/400 edges) under random line orders; non-binary inputs. Non-trivial = judged "
+                "ok with certificate or oracle; distinct by op line.", extra={"exhaustive": True})
+
+
+@check("C06")
+def c06(run):
+    quick = run.tier == "quick"
+    rng = run.rng
+    lines = []
+    sh = shapes(3, 3) if quick else shapes(3, 4) + [(4, 3), (4, 2), (4, 1)]
+    for (m, n) in sh:
+        for e in all_mats(m, n, (-1, 0, 1)):
+            mt = mat_tokens(m, n, e)
+            lines.append("network 0 1 1 %s" % mt)
+            lines.append("network 1 1 1 %s" % mt)
+    run.batch("exhaustive-small", lines, "plain")
+    more = []
+    # all signings of 0/1 supports 4x4 (sampled supports), both entry points
+    for _ in range(300 if quick else 5000):
+        m, n = rng.choice([(4, 4), (4, 3), (3, 4), (4, 5), (5, 4), (5, 5)])
+        s = rand_mat(rng, m, n, (1,), rng.choice((0.4, 0.6)))
+        for _ in range(6):
+            e = [x * rng.choice((1, -1)) for x in s]
+            more.append("network %d 1 1 %s" % (rng.randint(0, 1), mat_tokens(m, n, e)))
+    for (m, n, e) in graph_instances(rng, 400 if quick else 5000, 14, True):
+        more.append("network 0 1 1 %s" % mat_tokens(m, n, e))
+        if m * n:
+            # single sign corruption
+            nz = [i for i, x in enumerate(e) if x]
+            if nz:
+                e2 = list(e); k = rng.choice(nz); e2[k] = -e2[k]
+                more.append("network 0 1 1 %s" % mat_tokens(m, n, e2))
+        more.append("network 1 1 1 %s" % mat_tokens(n, m, [e[i * n + j] for j in range(n) for i in range(m)]))
+    for (m, n, e) in graph_instances(rng, 50 if quick else 1500, 100 if quick else 400, True):
+        more.append("network 0 1 1 %s" % mat_tokens(m, n, e))
+    for _ in range(100 if quick else 1000):
+        m, n = rng.randint(1, 4), rng.randint(1, 4)
+        more.append("network %d 1 1 %s" % (rng.randint(0, 1), mat_tokens(m, n, rand_mat(rng, m, n, (-2, 1, 2), 0.6))))
+    run.batch("signings+digraph-instances", more, "asan")
+    return dict(rule="exhaustive: every {-1,0,1} matrix up to 3x3 (thorough 3x4, 4x<=3) through CMRnetworkTestMatrix and CMRnetworkTestTranspose "
+                "with digraph, reversal flags and violator requested: yes is decided by multiplying out the certificate including signs, no by "
+                "the brute-force tree+orientation search and the violator by the same oracle, the support flag by the graphicness search; "
+                "random signings of 0/1 supports, network matrices of random digraphs with random arc reversals and single sign "
+                "corruptions, up to 100/400 arcs. Non-trivial = judged ok; distinct by op line.", extra={"exhaustive": True})
+
+
+@check("C14")
+def c14(run):
+    quick = run.tier == "quick"
+    rng = run.rng
+    lines = []
+    maxn, maxe = (3, 4) if quick else (4, 5)
+    for nn in range(1, maxn + 1):
+        pairs = [(u, v) for u in range(nn) for v in range(u, nn)]
+        for ne in range(0, maxe + 1):
+            for es in itertools.combinations_with_replacement(pairs, ne):
+                for fmask in range(1 << ne):
+                    F = [i for i in range(ne) if (fmask >> i) & 1]
+                    K = [i for i in range(ne) if not (fmask >> i) & 1]
+                    for directed in (0, 1):
+                        revs = [0] * ne if not directed else [rng.randint(0, 1) for _ in range(ne)]
+                        flips = [rng.randint(0, 1) if directed else 0 for _ in range(ne)]
+                        el = " ".join("%d %d %d" % ((v, u, r) if f else (u, v, r)) for (u, v), r, f in zip(es, revs, flips))
+                        Fs = list(F); Ks = list(K)
+                        rng.shuffle(Fs); rng.shuffle(Ks)
+                        lines.append(("repmat %d %d %d %d %s %d %s %d %s" % (directed, rng.choice((1, 2, 3, 3)), nn, ne, el, len(Fs),
+                                      " ".join(map(str, Fs)), len(Ks), " ".join(map(str, Ks)))).replace("  ", " ").strip())
+    if quick and len(lines) > 60000:
+        lines = rng.sample(lines, 60000)
+    run.batch("exhaustive-small-graphs", [" ".join(l.split()) for l in lines], "plain")
+    more = []
+    for _ in range(300 if quick else 5000):
+        nn = rng.randint(1, 40); ne = rng.randint(0, 120 if quick else 300)
+        edges = rand_multigraph(rng, nn, ne)
+        F = spanning_forest(rng, nn, edges)
+        if rng.random() < 0.3 and F:
+            # break the forest: drop an edge or add a non-forest edge
+            if rng.random() < 0.5 or len(F) == ne:
+                F.pop(rng.randrange(len(F)))
+            else:
+                F.append(rng.choice([i for i in range(ne) if i not in set(F)]))
+        K = [i for i in range(ne) if i not in set(F)]
+        rng.shuffle(K)
+        directed = rng.randint(0, 1)
+        el = " ".join("%d %d %d" % (u, v, rng.randint(0, 1) if directed else 0) for (u, v) in edges)
+        more.append(" ".join(("repmat %d 3 %d %d %s %d %s %d %s" % (directed, nn, ne, el, len(F), " ".join(map(str, F)), len(K),
+                    " ".join(map(str, K)))).split()))
+    run.batch("random-large", more, "asan")
+    # round trip: constructed matrices are recognised and the returned graph reproduces them (judged by C05/C06 machinery)
+    rt = []
+    for (m, n, e) in graph_instances(rng, 300 if quick else 3000, 30, False):
+        rt.append("graphic 0 1 0 %s" % mat_tokens(m, n, e))
+    for (m, n, e) in graph_instances(rng, 300 if quick else 3000, 30, True):
+        rt.append("network 0 1 0 %s" % mat_tokens(m, n, e))
+    run.batch("roundtrip-recognition", rt, "asan")
+    return dict(rule="exhaustive: every multigraph with <=%d nodes and <=%d edges (loops, parallel edges, isolated nodes, several components) x "
+                "every edge subset offered as forest (forests, non-forests, partial) x both the graphic and the network constructor with "
+                "seeded orientations/reversal flags and shuffled forest/coforest order; matrix, transpose and forest flag compared with the "
+                "model; random graphs up to 120/300 edges with broken forests; constructed matrices sent through recognition and the "
+                "returned graph multiplied out. Non-trivial = judged ok; distinct by op line." % (maxn, maxe), extra={"exhaustive": True})
